@@ -11,7 +11,7 @@
 From Coq Require Import List NArith ZArith Bool.
 From NV Require Import Syntax.Token Syntax.Ast Syntax.StmtAst Syntax.Parser Syntax.Grammar
      Syntax.ParserProofs Syntax.GrammarProofs Syntax.OpTableCheck Syntax.LexTable Syntax.FuelProofs
-     Syntax.SoundProofs Gen.OpTable.
+     Syntax.SoundProofs Syntax.TypeGrammar Syntax.TypeProofs Syntax.StmtGrammar Syntax.StmtProofs Gen.OpTable.
 Import ListNotations.
 
 (* Every well-formed derivation tree, of any size and nesting depth, is read back as exactly
@@ -35,6 +35,45 @@ Print Assumptions C10_precedence.
 Theorem C10_roundtrip_stmt : forall s : sst, wf_stmt s = true -> parse (pr_stmt s) = Ok [desugar_stmt s] [].
 Proof. exact roundtrip_stmt. Qed.
 Print Assumptions C10_roundtrip_stmt.
+
+(* Type annotations and dimension expressions (Syntax/TypeGrammar.v): `sty` = derivation trees of the
+   documented grammar (dimension identifiers with optional type arguments, `1`, parentheses, `^` with
+   a signed / parenthesised / rational exponent, unicode exponents, `*` and `/` left-associative,
+   Bool, String, DateTime, Fn[(…) -> …], List<…>), `wf_ty` = operands at the level the grammar requires
+   and exponents that evaluate without overflow or division by zero.  Every well-formed tree, of any
+   size and nesting depth, followed by anything that cannot continue a dimension expression, is read back
+   by Parser::type_annotation as the type it denotes; dimension expressions likewise. *)
+Theorem C10_roundtrip_type : forall (t : sty) (rest : list token),
+  wf_ty t = true -> tfollow rest = true -> type_annotation (pr_ty t ++ rest) = Ok (ty_ann t) rest.
+Proof. exact type_annotation_ok. Qed.
+Print Assumptions C10_roundtrip_type.
+
+Theorem C10_roundtrip_dexpr : forall (t : sty) (rest : list token),
+  wf_ty t = true -> 1 <= ylvl t -> tfollow rest = true ->
+  dimension_expression (pr_ty t ++ rest) = Ok (ty_exp t) rest.
+Proof. exact dimension_expression_ok. Qed.
+Print Assumptions C10_roundtrip_dexpr.
+
+(* Definitions (Syntax/StmtGrammar.v): `let` with optional annotation and decorators; `fn` with type
+   parameters (with or without the Dim bound), typed and untyped parameters, optional return
+   annotation, optional body with where / and clauses, decorators; `dimension` with any number of
+   `= dexpr` alternatives; `unit` base or derived with optional dimension annotation and decorators;
+   `use a::b::c`; `struct` with type parameters and fields.  Every decorator of the documentation
+   (metric_prefixes, binary_prefixes, abbreviation, aliases with the four accepts annotations, url,
+   name, description, example with one or two strings) on its own line.  wf_def = the documented side
+   conditions (no example on let / unit, no prefixed alias on let, no alias on fn, no reserved name).
+   Every well-formed definition parses to the statement it denotes. *)
+Theorem C10_roundtrip_def : forall s : sdef, wf_def s = true -> parse (pr_def s) = Ok [desugar_def s] [].
+Proof. exact roundtrip_def. Qed.
+Print Assumptions C10_roundtrip_def.
+
+(* Programs: any number of statements and definitions, separated by `;` or a line break and any
+   number of blank lines, with blank lines before and after, parse to the list of their meanings. *)
+Theorem C10_roundtrip_program : forall lead i more trail,
+  wf_item i = true -> wf_more more = true ->
+  parse (pr_prog lead i more trail) = Ok (desugar_item i :: map (fun p => desugar_item (snd p)) more) [].
+Proof. exact roundtrip_program. Qed.
+Print Assumptions C10_roundtrip_program.
 
 (* Two well-formed renderings of the same tree (redundant parentheses, `per` vs `/`,
    `to` vs `->`, unary plus, `^-x` vs `^(-x)`) parse identically. *)
@@ -166,4 +205,50 @@ Example C10_ex_statements :
   /\ pr_stmt s1 = [TKw KLet; TIdent [120]; TEqual; TNumber [50]; TIdent [109]]%N
   /\ parse (pr_stmt s1) = Ok [StLet (mk_defvar [120]%N None [] (EBin Mul (EScalar [50]%N) (EIdent [109]%N)))] []
   /\ parse (pr_stmt s2) = Ok [StProc KAssertEq [EIdent [97]%N; EBin Add (EIdent [98]%N) (EScalar [49]%N)]] [].
+Proof. vm_compute. repeat split; reflexivity. Qed.
+
+(* definitions:
+     @name("N")
+     @aliases(g: short, h)
+     fn f<D: Dim, E>(x: D, y) -> D^2 = x * z where z = 2 and w: List<E> = v
+   and `unit u: L / T^(-1/2) = 3 m`, `dimension A = B * C = D`, `struct S<T> { a: T, b: Fn[(T) -> Bool] }`,
+   `use a::b` *)
+Example C10_ex_definitions :
+  let D := YIdent [68]%N None in
+  let f := SFFn [SDName [34; 78; 34]%N; SDUrl [34; 34]%N]
+                [102]%N [([68]%N, true); ([69]%N, false)]
+                [([120]%N, Some D); ([121]%N, None)]
+                (Some (YPow D (XNum [50]%N)))
+                (Some (SBin TMultiply (id_ 120) (id_ 122),
+                       [mk_svar [122]%N None (num_ 50);
+                        mk_svar [119]%N (Some (YList (YIdent [69]%N None))) (id_ 118)])) in
+  let u := SFUnit [SDMetric; SDAliases [([103]%N, Some AcShort); ([104]%N, None)]] [117]%N
+                  (Some (YDiv (YIdent [76]%N None) (YPow (YIdent [84]%N None) (XParDiv (XMinus (XNum [49]%N)) (XNum [50]%N)))))
+                  (Some (SIMul (num_ 51) (id_ 109))) in
+  let d := SFDimension [65]%N [YMul (YIdent [66]%N None) (YIdent [67]%N None); D] in
+  let s := SFStruct [83]%N [([84]%N, false)]
+                    [([97]%N, YIdent [84]%N None); ([98]%N, YFn [YIdent [84]%N None] YBool)] in
+  let m := SFUse [97]%N [[98]%N] in
+  wf_def f = true /\ wf_def u = true /\ wf_def d = true /\ wf_def s = true /\ wf_def m = true
+  /\ parse (pr_def f) = Ok [desugar_def f] []
+  /\ desugar_def u = StUnit [117]%N
+       (Some (TAExp (TEDiv (TEIdent [76]%N []) (TEPow (TEIdent [84]%N []) ((-1)%Z, 2%positive)))))
+       (Some (EBin Mul (EScalar [51]%N) (EIdent [109]%N)))
+       [DMetricPrefixes; DAliases [([103]%N, Some AcShort); ([104]%N, None)]]
+  /\ parse (pr_def u) = Ok [desugar_def u] []
+  /\ pr_def d = [TKw KDimension; TIdent [65]; TEqual; TIdent [66]; TMultiply; TIdent [67]; TEqual; TIdent [68]]%N
+  /\ parse (pr_def s) = Ok [desugar_def s] []
+  /\ parse (pr_prog 1 (IDef f) [((false, 1), IDef u); ((true, 0), IStmt (SSExpr (id_ 120))); ((false, 0), IDef m)] 2)
+     = Ok [desugar_def f; desugar_def u; StExpr (EIdent [120]%N); StUse [[97]%N; [98]%N]] [].
+Proof. vm_compute. repeat split; reflexivity. Qed.
+
+(* side conditions: an alias on a function, an example on a unit and a where clause that would be
+   swallowed are outside wf_def / srest, and the model indeed rejects or reads them differently *)
+Example C10_ex_definitions_rejected :
+  let f := SFFn [SDAliases [([103]%N, None)]] [102]%N [] [] None None in
+  let u := SFUnit [SDExample [34; 34]%N None] [117]%N None None in
+  wf_def f = false /\ parse (pr_def f) = Err AliasUsedOnFunction
+  /\ wf_def u = false /\ parse (pr_def u) = Err ExampleUsedOnUnsuitableKind
+  /\ srest [TNewline; TKw KWhere]%N = false
+  /\ wf_ty (YPow (YMul (YIdent [65]%N None) (YIdent [66]%N None)) (XNum [50]%N)) = false.
 Proof. vm_compute. repeat split; reflexivity. Qed.
